@@ -121,7 +121,7 @@ func recorderFileOps(w *World) (*ssa.Function, []fileOp) {
 }
 
 func propC10(w *World, r *Report) {
-	r.Explanation = "Decided clause: (D1) every file created on behalf of a recording (by CPTVFileRecorder.StartRecording and, through it, by go-cptv's writer: the output file and its .tmp scratch file) has a name whose constant suffix does not end in '.cptv'; (D2) the only operation in the recorder that gives a file a '.cptv' name is the os.Rename of the stop path, whose source is the open writer's own name and whose target is that name with the constant regexp stripping '.temp', and on every path it is preceded by the writer's Close (which compresses, closes and deletes the scratch file); (D3) the recorder's writer field is set only by a fully successful start, is cleared by every stop, Stop() (connection loss) closes and removes the temporary file and is deferred right after construction; (D4) runMain runs the start-up clean-up on OutputDir before the first connection is handled and returns its error; (D5) coverage: for every creation suffix and every creation directory some glob removed by the clean-up matches it. Rule: file-name suffix abstract domain (constant suffixes through +, Join, time.Format, Sprintf, constant regexp replacement) + dominator/ordering analysis."
+	r.Explanation = "Decided clause: (D1) every file created on behalf of a recording (by CPTVFileRecorder.StartRecording and, through it, by go-cptv's writer: the output file and its .tmp scratch file) has a name whose constant suffix does not end in '.cptv'; (D2) the only operation in the recorder that gives a file a '.cptv' name is the os.Rename of the stop path, whose source is the open writer's own name and whose target is that name with the constant regexp stripping '.temp', and on every path it is preceded by the writer's Close (which compresses, closes and deletes the scratch file); (D3) the recorder's writer field is set only by a fully successful start, is cleared by every stop, Stop() (connection loss) closes and removes the temporary file and is deferred right after construction; (D4) runMain runs the start-up clean-up on OutputDir before the first connection is handled and, when its error is not nil, returns it; (D5) coverage: for every creation suffix and every creation directory some glob removed by the clean-up matches it, a failing removal is returned, and nothing but a non-nil error leaves the clean-up's loops early. Rule: file-name suffix abstract domain (constant suffixes through +, Join, time.Format, Sprintf, constant regexp replacement) + dominator/ordering analysis."
 	r.RuleText = "obligation per (rule, file operation / path)"
 	r.Assumptions = []string{"decodability of file contents, rename atomicity and power-loss durability are not decided (the statement excludes power loss)",
 		"filepath.Glob/Match semantics (standard library); the temporary name is '<timestamp>' + constant tail, the stem contains no path separator"}
